@@ -191,6 +191,52 @@ fn check(t: &mut Tally, p: &str, base_names: &[String], literal_expansions: bool
     }
 }
 
+/// The very large patterns are described, not stored: ("group", n) = one group of n numbered
+/// alternatives, ("cross", k) = two groups of k alternatives each; with their probe names.
+fn large_pattern(kind: &str, n: usize) -> (String, Vec<(String, bool)>) {
+    if kind == "group" {
+        let alts: Vec<String> = (0..n).map(|i| format!("lib{}", i)).collect();
+        let pat = format!("{{{}}}-1.0", alts.join(","));
+        let names = vec![("lib0-1.0".to_string(), true), (format!("lib{}-1.0", n / 2), true), (format!("lib{}-1.0", n - 1), true), (format!("lib{}-1.0", n / 3 * 2 + 1), true), (format!("lib{}-1.0", n), false), ("lib-1.0".to_string(), false), (format!("lib{}-1.1", n / 2), false)];
+        (pat, names)
+    } else {
+        let k = n;
+        let a: Vec<String> = (0..k).map(|i| format!("a{}", i)).collect();
+        let b: Vec<String> = (0..k).map(|i| format!("b{}", i)).collect();
+        let pat = format!("{{{}}}-{{{}}}-2", a.join(","), b.join(","));
+        let names = vec![("a0-b0-2".to_string(), true), (format!("a{}-b{}-2", k - 1, k - 1), true), (format!("a{}-b0-2", k - 1), true), (format!("a0-b{}-2", k - 1), true), (format!("a{}-b{}-2", k / 2, k / 3), true), (format!("a{}-b0-2", k), false), (format!("a0-b{}-2", k), false), ("a0-a0-2".to_string(), false)];
+        (pat, names)
+    }
+}
+
+fn check_large(t: &mut Tally, kind: &str, n: usize, only: Option<&str>) {
+    t.states += 1;
+    let (pat, names) = large_pattern(kind, n);
+    let case = |name: Option<&str>| json!({"large": kind, "n": n, "name": name, "pattern_head": pat.chars().take(60).collect::<String>()});
+    let compiled = match guard(|| Pattern::new(&pat)) {
+        Ok(Ok(p)) => p,
+        other => {
+            t.violation(Violation::new("large", case(None), json!("compiles"), json!(format!("{:?}", other.map(|r| r.map(|_| ()).map_err(|e| e.to_string())))), "a properly nested brace pattern must compile"));
+            return;
+        }
+    };
+    for (name, want) in &names {
+        if only.is_some() && only != Some(name.as_str()) {
+            continue;
+        }
+        t.evals += 1;
+        t.validated += 1;
+        t.transitions += 1;
+        match guard(|| compiled.matches(name)) {
+            Ok(g) if g == *want => {
+                t.nontrivial += 1;
+                t.outcome(if *want { "large/member-matches" } else { "large/non-member-rejected" });
+            }
+            other => t.violation(Violation::new("large", case(Some(name)), json!(want), json!(format!("{:?}", other)), "a name matches exactly when it is one of the expansions, however many there are")),
+        }
+    }
+}
+
 fn ab_names() -> Vec<String> {
     let mut v = vec![];
     let mut pre = vec![];
@@ -202,6 +248,11 @@ fn ab_names() -> Vec<String> {
 
 fn replay(doc: &Value) -> Option<Violation> {
     let c = &doc["case"];
+    if doc["kind"] == "large" {
+        let mut t = Tally::new();
+        check_large(&mut t, c["large"].as_str().unwrap_or("group"), c["n"].as_u64().unwrap_or(1000) as usize, c["name"].as_str());
+        return t.violations.into_iter().next();
+    }
     let p = c["pattern"].as_str().unwrap_or("");
     let names: Vec<String> = c["name"].as_str().map(|s| vec![s.to_string()]).unwrap_or_default();
     let mut t = Tally::new();
@@ -279,6 +330,17 @@ fn main() {
             check(&mut t, p, &names, true);
         }
         run.merge(t);
+    }
+    // very large expansions: one group of n numbered alternatives (n up to 2^20) and cross products
+    // of two groups of k x k (k up to 1024).  The expansion is not materialised by the model: a
+    // name matches exactly when it is one of the (distinct, plain) alternatives.
+    {
+        let ns: Vec<usize> = if run.thorough() { vec![1000, 4096, 30_000, 65_537, 300_000, 1 << 20] } else { vec![1000, 4096, 30_000, 65_537, 300_000] };
+        let ks: Vec<usize> = if run.thorough() { vec![32, 100, 300, 600, 1024] } else { vec![32, 100, 300, 600] };
+        run.bound(format!("very large expansions: single groups of {:?} alternatives, cross products of two groups of {:?} alternatives each; first / middle / last / absent members as names", ns, ks));
+        let mut jobs: Vec<(&str, usize)> = ns.iter().map(|n| ("group", *n)).collect();
+        jobs.extend(ks.iter().map(|k| ("cross", *k)));
+        mc_core::par::par_items(&run, "C04 very large expansions", &jobs, |_, (kind, n), t| check_large(t, kind, *n, None));
     }
     // character sweep: every ASCII and 64 special non-ASCII characters as alternative text
     {
